@@ -22,16 +22,19 @@ type replaySpec struct {
 
 // LoadReplayers registers the go-test replay harnesses listed in replay/replays.json.
 func LoadReplayers(verifDir string) error {
-	data, err := os.ReadFile(filepath.Join(verifDir, "replay", "replays.json"))
-	if err != nil {
-		if os.IsNotExist(err) {
-			return nil
-		}
-		return err
-	}
+	// replay/replays.json and any replay/replays_*.json
+	files, _ := filepath.Glob(filepath.Join(verifDir, "replay", "replays*.json"))
 	var specs []replaySpec
-	if err := json.Unmarshal(data, &specs); err != nil {
-		return fmt.Errorf("replays.json: %v", err)
+	for _, f := range files {
+		data, err := os.ReadFile(f)
+		if err != nil {
+			return err
+		}
+		var part []replaySpec
+		if err := json.Unmarshal(data, &part); err != nil {
+			return fmt.Errorf("%s: %v", f, err)
+		}
+		specs = append(specs, part...)
 	}
 	for _, s := range specs {
 		s := s
